@@ -13,12 +13,17 @@
 //!                      (e.g. 10@+0530 = `2001-01-01T05:30:10+05:30`, 10@-0800 = `2000-12-31T16:00:10-08:00`)
 //!              @u      the DateTime<Utc> twins with_date_effective / with_date_expires (instant computed by
 //!                      chrono arithmetic from a base value, no per-date string parsing)
-//!            (agenda group 0 = "MAIN" given explicitly, g = "G<g>"; activation group a = "A<a>")
+//!            (agenda / activation groups and rule names reach the engine as STRINGS through the tables GROUP_NAMES / ACTG_NAMES /
+//!            RULE_NAMES below — confusable names for the small ids, `G<g>` / `A<a>` / `r<n>` beyond; agenda group 0 = "MAIN" given explicitly)
 //!            cond = E.f.v | L.f.v | G.f.v   (f == v, f < v, f > v)
 //!            acts = `-` | act/act/…   act = S.f.v (f := v) | A.f.k (f := f + k) | F.g (ActivateAgendaGroup)
 //!                   | W.k  a workflow bookkeeping action: k = 0 ScheduleRule (one hour ahead), 1 CompleteWorkflow,
 //!                     2 SetWorkflowData — none of them touches the facts, the agenda or the loop control of `execute`
 //!                     (scheduled tasks only run through `execute_scheduled_tasks`), so the model sees a rule without it
+//!                   | O.k.v  a dotted-path write `Set { field: <path>, value: v }`: k = 0 `o0.x`, k = 2 `o0.y.z` (nested paths of the
+//!                     EXISTING object fact `o0` = {x: 0, y: {z: 0}} every case starts with → `Facts::set_nested`), k = 1 `o1.x`
+//!                     (root object missing → falls back to the flat key "o1.x"). No condition reads these facts: the model sees
+//!                     the rule without the action (it fires and keeps the loop alive like any other firing)
 //!   ops   := `-` | op;op;…
 //!            X<t> execute_at_time(t) (t = inst as above, e.g. X10f200000) | C execute_with_callback (t = now = abstract time 50)
 //!            X<t>u execute_at_time(t) with the timestamp built as a DateTime<Utc> by chrono arithmetic (base + t × 1 s)
@@ -26,6 +31,10 @@
 //!            F<g> set_agenda_focus | P pop_agenda_focus | Z clear_agenda_focus | N reset_no_loop_tracking
 //!            V<g> activate_agenda_group | A<rule> add_rule | R<n> remove_rule | E<n>/D<n> set_rule_enabled
 //!            S<f>.<v> facts.set
+//!            Ub / Uc / Ur  facts.begin_undo_frame() / commit_undo_frame() / rollback_undo_frame() by the CALLER, around the
+//!                  execute calls (frames nest; commit / rollback with no frame open do nothing). After `Ur` the facts are what
+//!                  they were at the matching `Ub` (model: the store is restored; the harness also compares the complete fact
+//!                  map, nested objects included: res `u!undo` on a difference)
 //!            T execute (the plain wrapper: execute_at_time(now)) | B<0|1> set_debug_mode(false|true)
 //!            Q<0|1> disable_analytics() | enable_analytics(RuleAnalytics::new(AnalyticsConfig::default()))
 //!            MA<rule> / MR<n> / ME<n> / MD<n>  the knowledge-base calls of A / R / E / D through knowledge_base_mut()
@@ -181,6 +190,13 @@ pub fn parse_rule(s: &str) -> Option<RuleSpec> {
             match (k, q.len()) {
                 ('S', 3) | ('A', 3) => acts.push((k, q[1].parse().ok()?, q[2].parse().ok()?)),
                 ('F', 2) => acts.push((k, q[1].parse().ok()?, 0)),
+                ('O', 3) => {
+                    let w: u64 = q[1].parse().ok()?;
+                    if w > 2 {
+                        return None;
+                    }
+                    acts.push((k, w, q[2].parse().ok()?))
+                }
                 ('W', 2) => {
                     let w: u64 = q[1].parse().ok()?;
                     if w > 2 {
@@ -285,20 +301,67 @@ pub fn show_case(c: &Case) -> String {
     )
 }
 
-fn group_name(g: u64) -> String {
-    if g == 0 {
-        "MAIN".into()
-    } else {
-        format!("G{}", g)
+// ---------------------------------------------------------------------------------------------
+// names: the case grammar (and the model) identify agenda groups, activation groups and rules by NUMBERS; the strings the real
+// engine sees come from these tables. The small ids — the ones every generator family uses — map to names that are easy to
+// confuse when a string is used as (part of) a key: prefix relations through `/` `.` `:` ` `, the empty string, a group named
+// like a rule, `MAIN` look-alikes, names that differ in case or by a trailing blank only. They are all DISTINCT names, so the
+// engine must keep them apart exactly as it keeps "G7" and "G8" apart. Larger ids fall back to `G<g>` / `A<a>` / `r<n>`.
+// `check_name_tables` (run at start-up) asserts that the three maps are injective and that the inverse maps invert them.
+const GROUP_NAMES: [&str; 18] = [
+    "MAIN", "G1", "G1/x", "G1.x", "G1:x", "G1 x", "", "r1", "main", "MAIN ", "Main", "g1", "G1 ", "G1/", "G1/x/y", "G1/r1", "/", " ",
+];
+const RULE_NAMES: [&str; 12] = ["r0", "r1", "r1/r0", "R1", "r1 ", "x", "G1", "MAIN", "r1.x", "r1:x", "x/r0", "r0/"];
+const ACTG_NAMES: [&str; 8] = ["A0", "A0/x", "a0", "A0 ", "MAIN", "r1", "G1", "A0.x"];
+pub const NGROUP_NAMES: u64 = GROUP_NAMES.len() as u64;
+
+pub fn group_name(g: u64) -> String {
+    match GROUP_NAMES.get(g as usize) {
+        Some(s) => s.to_string(),
+        None => format!("G{}", g),
     }
 }
 fn group_id(s: &str) -> String {
-    if s == "MAIN" {
-        "0".into()
-    } else if let Some(r) = s.strip_prefix('G') {
-        r.to_string()
-    } else {
-        format!("?{}", hex(s))
+    if let Some(i) = GROUP_NAMES.iter().position(|x| *x == s) {
+        return i.to_string();
+    }
+    match s.strip_prefix('G').and_then(|r| r.parse::<u64>().ok()) {
+        Some(g) if g as usize >= GROUP_NAMES.len() && format!("G{}", g) == s => g.to_string(),
+        _ => format!("?{}", hex(s)),
+    }
+}
+pub fn rule_name(n: u64) -> String {
+    match RULE_NAMES.get(n as usize) {
+        Some(s) => s.to_string(),
+        None => format!("r{}", n),
+    }
+}
+/// inverse of `rule_name` (-1: not a name of the table / scheme)
+fn rule_id(s: &str) -> i64 {
+    if let Some(i) = RULE_NAMES.iter().position(|x| *x == s) {
+        return i as i64;
+    }
+    match s.strip_prefix('r').and_then(|r| r.parse::<u64>().ok()) {
+        Some(n) if n as usize >= RULE_NAMES.len() && format!("r{}", n) == s => n as i64,
+        _ => -1,
+    }
+}
+fn actg_name(a: u64) -> String {
+    match ACTG_NAMES.get(a as usize) {
+        Some(s) => s.to_string(),
+        None => format!("A{}", a),
+    }
+}
+pub fn check_name_tables() {
+    use std::collections::HashSet;
+    let n = 4096u64;
+    let g: HashSet<String> = (0..n).map(group_name).collect();
+    let r: HashSet<String> = (0..n).map(rule_name).collect();
+    let a: HashSet<String> = (0..n).map(actg_name).collect();
+    assert!(g.len() == n as usize && r.len() == n as usize && a.len() == n as usize, "name tables are not injective");
+    for i in 0..n {
+        assert!(group_id(&group_name(i)) == i.to_string(), "group_id does not invert group_name at {}", i);
+        assert!(rule_id(&rule_name(i)) == i as i64, "rule_id does not invert rule_name at {}", i);
     }
 }
 
@@ -402,6 +465,9 @@ fn build_rule(r: &RuleSpec, marker_always: bool) -> Rule {
                 let e = if *b >= 0 { format!("f{} + {}", a, b) } else { format!("f{} - {}", a, -b) };
                 actions.push(ActionType::Set { field: format!("f{}", a), value: Value::Expression(e) })
             }
+            // a dotted-path write: `Facts::set_nested` on an object that exists (k = 0: `o0.x`, k = 2: two levels down, `o0.y.z`)
+            // or whose root is missing (k = 1: `o1.x`, falls back to the flat key "o1.x"); no condition reads these facts
+            'O' => actions.push(ActionType::Set { field: ["o0.x", "o1.x", "o0.y.z"][(*a as usize).min(2)].to_string(), value: Value::Integer(*b) }),
             'W' => actions.push(match a {
                 0 => ActionType::ScheduleRule { rule_name: "later".into(), delay_ms: 3_600_000 },
                 1 => ActionType::CompleteWorkflow { workflow_name: "wf".into() },
@@ -418,12 +484,12 @@ fn build_rule(r: &RuleSpec, marker_always: bool) -> Rule {
     // `ScheduleRule { "r<name>", 0 ms }`: the workflow engine's task list is a log in push order, read back (and drained) with
     // `get_ready_tasks` after every execute and merged with the Custom-marker log by the instants both carry
     if workflow_only(r) && !marker_always {
-        actions.push(ActionType::ScheduleRule { rule_name: format!("r{}", r.name), delay_ms: 0 });
+        actions.push(ActionType::ScheduleRule { rule_name: rule_name(r.name), delay_ms: 0 });
     } else {
         actions.push(marker(0, r.name));
     }
     // the salience reaches the rule through `with_salience` (even names) or its alias `with_priority` (odd names)
-    let rule = Rule::new(format!("r{}", r.name), cond, actions);
+    let rule = Rule::new(rule_name(r.name), cond, actions);
     let rule = if r.name % 2 == 1 { rule.with_priority(r.sal as i32) } else { rule.with_salience(r.sal as i32) };
     let mut rule = rule
         .with_no_loop(r.flags & 2 != 0)
@@ -433,7 +499,7 @@ fn build_rule(r: &RuleSpec, marker_always: bool) -> Rule {
         rule = rule.with_agenda_group(group_name(g));
     }
     if let Some(a) = r.actg {
-        rule = rule.with_activation_group(format!("A{}", a));
+        rule = rule.with_activation_group(actg_name(a));
     }
     if let Some(e) = r.eff {
         rule = apply_date(rule, e, r.effn, r.effh, false);
@@ -478,6 +544,17 @@ pub fn exec_case(case: &str) -> String {
             facts.set(&format!("f{}", i), Value::Integer(*v));
         }
     }
+    // the object the `O.k.v` actions write into (no condition reads it; the model does not see it)
+    {
+        let mut inner = HashMap::new();
+        inner.insert("z".to_string(), Value::Integer(0));
+        let mut o0 = HashMap::new();
+        o0.insert("x".to_string(), Value::Integer(0));
+        o0.insert("y".to_string(), Value::Object(inner));
+        facts.set("o0", Value::Object(o0));
+    }
+    // caller-owned undo frames (`Ub` / `Uc` / `Ur`): the complete fact map at each open `begin_undo_frame`
+    let mut frames: Vec<HashMap<String, Value>> = Vec::new();
     let nf = c.facts.len();
     let mut out = Vec::new();
     for op in &c.ops {
@@ -545,7 +622,7 @@ pub fn exec_case(case: &str) -> String {
                 // their instants (monotonic clock; the sort is stable, so equal instants keep marker-before-task order)
                 let mut stamped = log.lock().unwrap().clone();
                 for task in eng.get_ready_tasks() {
-                    let n = task.rule_name.strip_prefix('r').and_then(|x| x.parse::<i64>().ok()).unwrap_or(-1);
+                    let n = rule_id(&task.rule_name);
                     stamped.push((0, n, task.execute_at));
                 }
                 stamped.sort_by_key(|e| e.2);
@@ -560,7 +637,7 @@ pub fn exec_case(case: &str) -> String {
                 if k == 'C' {
                     // the callback is the observation point; the markers must tell the same story,
                     // except that on `Err` the last marker may belong to a rule whose callback never ran
-                    let fired: Vec<String> = evs.iter().filter(|e| e.0 == 0).map(|e| format!("r{}", e.1)).collect();
+                    let fired: Vec<String> = evs.iter().filter(|e| e.0 == 0).map(|e| if e.1 >= 0 { rule_name(e.1 as u64) } else { "?".to_string() }).collect();
                     if cb != fired {
                         res.push_str("!cb");
                     }
@@ -635,6 +712,27 @@ pub fn exec_case(case: &str) -> String {
                 eng.knowledge_base().clear();
                 "u".into()
             }
+            'U' => match rest {
+                "b" => {
+                    facts.begin_undo_frame();
+                    frames.push(facts.get_all_facts());
+                    "u".into()
+                }
+                "c" => {
+                    facts.commit_undo_frame();
+                    frames.pop();
+                    "u".into()
+                }
+                "r" => {
+                    facts.rollback_undo_frame();
+                    // every fact — the nested objects and dotted flat keys included — is what it was at the matching `Ub`
+                    match frames.pop() {
+                        Some(snap) if snap != facts.get_all_facts() => "u!undo".into(),
+                        _ => "u".into(),
+                    }
+                }
+                _ => return "bad-case".into(),
+            },
             'V' => {
                 let Ok(g) = rest.parse::<u64>() else { return "bad-case".into() };
                 eng.activate_agenda_group(group_name(g));
@@ -651,7 +749,7 @@ pub fn exec_case(case: &str) -> String {
             }
             'R' => {
                 let Ok(n) = rest.parse::<u64>() else { return "bad-case".into() };
-                let name = format!("r{}", n);
+                let name = rule_name(n);
                 let removed = if via_mut { eng.knowledge_base_mut().remove_rule(&name) } else { eng.knowledge_base().remove_rule(&name) };
                 match removed {
                     Ok(true) => "b1".into(),
@@ -661,7 +759,7 @@ pub fn exec_case(case: &str) -> String {
             }
             'E' | 'D' => {
                 let Ok(n) = rest.parse::<u64>() else { return "bad-case".into() };
-                let name = format!("r{}", n);
+                let name = rule_name(n);
                 let set = if via_mut {
                     eng.knowledge_base_mut().set_rule_enabled(&name, k == 'E')
                 } else {
@@ -1029,6 +1127,15 @@ fn gen(rng: &mut Rng, n: usize, _tier: &str) -> Vec<String> {
     for _ in 0..n / 20 {
         out.push(gen_kb_replace(rng));
     }
+    for _ in 0..(n / 15).max(60) {
+        out.push(gen_confusable_names(rng));
+    }
+    for _ in 0..(n / 25).max(40) {
+        out.push(gen_multi_activate(rng));
+    }
+    for _ in 0..(n / 25).max(40) {
+        out.push(gen_undo_frames(rng));
+    }
     out
 }
 
@@ -1197,6 +1304,222 @@ pub fn gen_kb_replace(rng: &mut Rng) -> String {
     show_case(&Case { maxc: *rng.pick(&[1usize, 2, 3]), facts: vec![Some(0), Some(0)], rules, ops })
 }
 
+// ---------------------------------------------------------------------------------------------
+// families shared with C03 (c03.rs): several pending agenda activations, caller-owned undo frames, confusable names
+
+fn exec_any(rng: &mut Rng) -> String {
+    match rng.below(8) {
+        0..=2 => "C".to_string(),
+        3..=5 => format!("X{}", rng.pick(&TIMES)),
+        _ => "T".to_string(),
+    }
+}
+
+fn plain(name: u64, sal: i64, flags: u8, ag: Option<u64>, cond: (char, u64, i64), acts: Vec<(char, u64, i64)>) -> RuleSpec {
+    RuleSpec { name, sal, flags, ag, actg: None, eff: None, exp: None, effh: How::Z, exph: How::Z, effn: 0, expn: 0, cond, acts }
+}
+
+/// 2..4 activations queued through `RustRuleEngine::activate_agenda_group` (the twin of set_agenda_focus that ALSO queues the
+/// activation in the workflow engine) before each execute — the same group twice, different groups, MAIN — interleaved with
+/// set_agenda_focus / pop / clear, which move the focus without queueing. `execute` re-applies EVERY queued activation in
+/// queue order before its first pass, so the pass runs under the last queued group whatever the focus calls in between did.
+/// Every group (MAIN included) holds rules with true and false conditions: one-shot rules (fire in the first pass only),
+/// counters, lock-on-active and no-loop rules; 2..3 executes per history, max_cycles 2..6.
+pub fn gen_multi_activate(rng: &mut Rng) -> String {
+    let ngroups = rng.range(3, 4);
+    let mut rules = Vec::new();
+    let mut name = 0u64;
+    for g in 0..ngroups {
+        let per = rng.range(1, 2);
+        for _ in 0..per {
+            let f = g % 3;
+            let (flags, cond, acts) = match rng.below(6) {
+                0 => (1u8, ('E', f, 0), vec![('S', f, 1)]),                       // one-shot, true at the start
+                1 => (1, ('L', f, rng.range(1, 4) as i64), vec![('A', f, 1)]),    // short counter
+                2 => (5, ('G', f, -1), vec![]),                                   // lock-on-active, always true
+                3 => (3, ('G', f, -1), vec![('A', f, 1)]),                        // no-loop, always true
+                4 => (1, ('E', f, 7), vec![('S', f, 0)]),                         // false
+                _ => (1, ('E', f, 0), vec![('S', f, 1), ('F', rng.below(ngroups), 0)]),
+            };
+            let ag = if g == 0 && rng.chance(1, 2) { None } else { Some(g) };
+            rules.push(plain(name, *rng.pick(&[0i64, 0, 7, -5]), flags, ag, cond, acts));
+            name += 1;
+        }
+    }
+    let mut ops = Vec::new();
+    for _ in 0..rng.range(2, 3) {
+        let k = rng.range(2, 4);
+        let first = rng.below(ngroups);
+        for i in 0..k {
+            let g = match rng.below(4) {
+                0 => first,
+                _ => rng.below(ngroups),
+            };
+            ops.push(format!("V{}", if i == 1 && rng.chance(1, 2) { (first + 1 + rng.below(ngroups - 1)) % ngroups } else { g }));
+            match rng.below(8) {
+                0 => ops.push(format!("F{}", rng.below(ngroups))),
+                1 => ops.push("P".to_string()),
+                2 => ops.push("Z".to_string()),
+                _ => {}
+            }
+        }
+        ops.push(exec_any(rng));
+        if rng.chance(1, 3) {
+            ops.push(exec_any(rng));
+        }
+        if rng.chance(1, 4) {
+            ops.push(format!("S{}.0", rng.below(3)));
+        }
+    }
+    let maxc = rng.range(2, 6) as usize;
+    show_case(&Case { maxc, facts: vec![Some(0), Some(0), Some(0)], rules, ops })
+}
+
+/// The CALLER holds an undo frame on the `Facts` it hands to `execute` (begin_undo_frame before the call; commit or rollback
+/// after it; nested frames; a frame left open over several calls; commit / rollback with nothing open). The rules write flat
+/// keys (S / A), dotted paths of the existing object (`O.0`, `O.2`), dotted paths of a missing object (`O.1`), several of them
+/// per rule; counters and one-shot rules, some no-loop. After a rollback the facts are what they were at the matching begin,
+/// so a following execute fires the same rules again.
+pub fn gen_undo_frames(rng: &mut Rng) -> String {
+    let nr = rng.range(1, 4);
+    let mut rules = Vec::new();
+    for i in 0..nr {
+        let f = i % 3;
+        let mut acts: Vec<(char, u64, i64)> = Vec::new();
+        for _ in 0..rng.range(1, 3) {
+            acts.push(match rng.below(7) {
+                0 => ('S', f, rng.range(1, 3) as i64),
+                1 | 2 => ('A', f, 1),
+                3 | 4 => ('O', *rng.pick(&[0u64, 0, 2]), rng.below(5) as i64),
+                5 => ('O', 1, rng.below(5) as i64),
+                _ => ('O', rng.below(3), rng.below(5) as i64),
+            });
+        }
+        let (flags, cond) = match rng.below(5) {
+            0 => (1u8, ('E', f, 0)),
+            1 => (1, ('L', f, rng.range(1, 4) as i64)),
+            2 => (3, ('G', f, -1)),
+            3 => (1, ('E', f, 9)),
+            _ => (1, ('L', f, 2)),
+        };
+        rules.push(plain(i, *rng.pick(&[0i64, 0, 7, -5]), flags, None, cond, acts));
+    }
+    let mut ops = Vec::new();
+    let mut open = 0u32;
+    for _ in 0..rng.range(1, 3) {
+        match rng.below(6) {
+            0 => {}
+            1 => {
+                ops.push("Ub".to_string());
+                ops.push("Ub".to_string());
+                open += 2;
+            }
+            _ => {
+                ops.push("Ub".to_string());
+                open += 1;
+            }
+        }
+        if rng.chance(1, 5) {
+            ops.push(format!("S{}.{}", rng.below(3), rng.below(3)));
+        }
+        ops.push(exec_any(rng));
+        if rng.chance(1, 4) {
+            ops.push(exec_any(rng));
+        }
+        match rng.below(6) {
+            0 => {}
+            1 | 2 => {
+                ops.push("Uc".to_string());
+                open = open.saturating_sub(1);
+            }
+            _ => {
+                ops.push("Ur".to_string());
+                open = open.saturating_sub(1);
+            }
+        }
+        if rng.chance(1, 5) {
+            ops.push("N".to_string());
+        }
+    }
+    while open > 0 && rng.chance(2, 3) {
+        ops.push(if rng.chance(1, 2) { "Ur".to_string() } else { "Uc".to_string() });
+        open -= 1;
+    }
+    if rng.chance(1, 2) {
+        ops.push(exec_any(rng));
+    }
+    let maxc = rng.range(1, 6) as usize;
+    let facts = (0..3).map(|_| if rng.chance(1, 10) { None } else { Some(rng.below(2) as i64) }).collect();
+    show_case(&Case { maxc, facts, rules, ops })
+}
+
+/// Agenda groups, activation groups and rule names drawn from the WHOLE name tables (confusable names: prefix relations
+/// through `/` `.` `:` blank, empty string, look-alikes of MAIN, case / trailing-blank twins, a group named like a rule).
+/// Lock-on-active / no-loop / activation-group rules with true conditions in 2..4 of these groups; histories that activate one
+/// group, execute (its lock-on-active rules fire), move the focus to another group (a NEW activation of that one only) and come
+/// back by pop (not a new activation) or by set_agenda_focus (a new one), with executes in between: the bookkeeping of one
+/// name must never be touched through another name.
+pub fn gen_confusable_names(rng: &mut Rng) -> String {
+    // pairs of ids whose names are in a confusable relation, and free draws from the whole table
+    let pairs: [(u64, u64); 14] =
+        [(1, 2), (1, 13), (2, 14), (1, 15), (1, 3), (1, 4), (1, 5), (1, 12), (1, 11), (0, 8), (0, 9), (0, 10), (6, 17), (16, 13)];
+    let mut groups: Vec<u64> = Vec::new();
+    let (a, b) = *rng.pick(&pairs);
+    groups.push(a);
+    groups.push(b);
+    for _ in 0..rng.below(3) {
+        let g = rng.below(NGROUP_NAMES);
+        if !groups.contains(&g) {
+            groups.push(g);
+        }
+    }
+    let mut names: Vec<u64> = (0..12).collect();
+    for i in (1..names.len()).rev() {
+        let j = rng.below(i as u64 + 1) as usize;
+        names.swap(i, j);
+    }
+    let mut rules = Vec::new();
+    let mut k = 0usize;
+    for g in &groups {
+        for _ in 0..rng.range(1, 2) {
+            if k >= names.len() {
+                break;
+            }
+            let flags = *rng.pick(&[5u8, 5, 5, 3, 7, 1]);
+            let mut r = plain(names[k], *rng.pick(&[0i64, 0, 7, -5]), flags, Some(*g), ('G', 0, -1), if rng.chance(1, 3) { vec![('A', 1, 1)] } else { vec![] });
+            if rng.chance(1, 5) {
+                r.actg = Some(rng.below(8));
+            }
+            rules.push(r);
+            k += 1;
+        }
+    }
+    let mut ops = Vec::new();
+    let pick = |rng: &mut Rng, groups: &Vec<u64>| *rng.pick(&groups[..]);
+    // activate the second of the pair (the longer name), run, go to the first, come back
+    let (first, second) = if rng.chance(3, 4) { (groups[1], groups[0]) } else { (groups[0], groups[1]) };
+    ops.push(format!("{}{}", if rng.chance(4, 5) { 'F' } else { 'V' }, first));
+    ops.push(exec_any(rng));
+    ops.push(format!("F{}", if rng.chance(3, 4) { second } else { pick(rng, &groups) }));
+    if rng.chance(1, 2) {
+        ops.push(exec_any(rng));
+    }
+    ops.push(if rng.chance(2, 3) { "P".to_string() } else { format!("F{}", pick(rng, &groups)) });
+    ops.push(exec_any(rng));
+    for _ in 0..rng.below(4) {
+        ops.push(match rng.below(6) {
+            0 => "P".to_string(),
+            1 => format!("V{}", pick(rng, &groups)),
+            2 => format!("W{}", pick(rng, &groups)),
+            3 => exec_any(rng),
+            _ => format!("F{}", pick(rng, &groups)),
+        });
+    }
+    ops.push(exec_any(rng));
+    let maxc = rng.range(1, 3) as usize;
+    show_case(&Case { maxc, facts: vec![Some(0), Some(0)], rules, ops })
+}
+
 pub fn shrink(case: &str) -> Vec<String> {
     let Some(c) = parse_case(case) else { return vec![] };
     let mut out = Vec::new();
@@ -1291,6 +1614,7 @@ pub fn shrink(case: &str) -> Vec<String> {
 
 #[allow(dead_code)]
 fn main() {
+    check_name_tables();
     if std::env::args().nth(1).as_deref() == Some("exec") {
         exec_main(exec_case, 5);
     } else {
